@@ -1,6 +1,7 @@
 /* C14 driver.  stdin: one run per line
  *   <module path>\t<rate>\t<format flags>\t<frames>\t<interp>\t<cfg tokens separated by spaces>
  * cfg token zonly: no per-frame output, one line "Z frames nonzero_samples first_nonsilent_frame" at the end
+ * cfg token repos=<n>: every n frames a position-control call (set_position / seek_time / restart / next / prev in turn)
  * cfg tokens: mute=<hex mask of channels to mute> | mvol=<0..200 via XMP_PLAYER_VOLUME> | sep=<-100..100 via XMP_PLAYER_MIX> | voices=<n>
  * stdout per run:
  *   R chn amplify ticksize_first stereo_samples mvol mvolbase maxvoc
@@ -26,7 +27,7 @@ int main(void)
 		struct xmp_module *mod;
 		struct xmp_frame_info fi;
 		unsigned long long mute = 0;
-		int mvol = -1, sep = -1000, voices = -1, stereo_samples = 0, zonly = 0; long nonzero = 0; int firstnz = -1;
+		int mvol = -1, sep = -1000, voices = -1, stereo_samples = 0, zonly = 0, repos = 0, nrep = 0; long nonzero = 0; int firstnz = -1;
 		line[strcspn(line, "\n")] = 0;
 		for (tok = line; nf < 6; nf++) { f[nf] = tok; tok = strchr(tok, '\t'); if (!tok) { nf++; break; } *tok++ = 0; }
 		if (nf < 5) continue;
@@ -37,6 +38,7 @@ int main(void)
 			else if (!strncmp(tok, "sep=", 4)) sep = atoi(tok + 4);
 			else if (!strncmp(tok, "voices=", 7)) voices = atoi(tok + 7);
 			else if (!strcmp(tok, "zonly")) zonly = 1;
+			else if (!strncmp(tok, "repos=", 6)) repos = atoi(tok + 6);
 		}
 		c = xmp_create_context();
 		ctx = (struct context_data *)c;
@@ -53,6 +55,17 @@ int main(void)
 		printf("R %d %d %d %d %d %d %d\n", mod->chn, ctx->s.amplify, ctx->s.ticksize, stereo_samples, ctx->m.mvol, ctx->m.mvolbase, ctx->p.virt.maxvoc);
 		for (k = 0; k < frames; k++) {
 			int n;
+			if (repos > 0 && k > 0 && k % repos == 0) {
+				/* a position-control call every `repos` frames, the same ones in every run of a module: mutes, volumes and
+				 * separation are the application's settings and must survive them */
+				switch (nrep++ % 5) {
+				case 0: xmp_set_position(c, mod->len > 1 ? 1 : 0); break;
+				case 1: xmp_seek_time(c, 1500); break;
+				case 2: xmp_restart_module(c); break;
+				case 3: xmp_next_position(c); break;
+				default: xmp_prev_position(c); break;
+				}
+			}
 			if (xmp_play_frame(c) < 0) break;
 			xmp_get_frame_info(c, &fi);
 			n = ctx->s.ticksize * ((format & XMP_FORMAT_MONO) ? 1 : 2);
